@@ -57,6 +57,10 @@ func runnerPath(cfg string) string {
 			return v
 		}
 	}
+	if os.Getenv("VERIF_REPO") != "" {
+		// development aid: runners built against another golua tree
+		return filepath.Join(core.Root(), ".bin", "alt", "c14-runner-"+cfg)
+	}
 	return filepath.Join(core.Root(), ".bin", "c14-runner-"+cfg)
 }
 
